@@ -220,4 +220,43 @@ GenWalk(g, sealed, root) ==
 GenFile == ("K" :> <<"p", "p.txt">>) @@ ("K2" :> <<"q", "q.txt">>) @@ ("K2Old" :> <<"q", "q.txt">>) @@ ("T" :> <<"r", "r.txt">>) @@ ("G" :> <<"p", "g.txt">>)
 (* the generated path of node n as a sequence of path components below the job directory *)
 GenPath(keys, cls) == IF keys = <<>> THEN <<GenFile[cls][2]>> ELSE <<"out">> \o keys \o <<GenFile[cls][2]>>
+
+(* ------------------------------------------------------------------ *)
+(* The definition list written for a configuration (params.json,        *)
+(* state_dict, save): post-order, every object once (l.1120-1191)       *)
+(* ------------------------------------------------------------------ *)
+RECURSIVE DefNode(_, _, _), DefVal(_, _, _), DefSeq(_, _, _, _), DefDict(_, _, _, _), DefArgs(_, _, _, _)
+
+DefVal(g, st, v) ==
+  CASE v[1] = "cfg" -> DefNode(g, st, v[2])
+    [] v[1] = "list" -> DefSeq(g, st, v[2], 1)
+    [] v[1] = "dict" -> DefDict(g, st, v[2], 1)
+    [] OTHER -> st
+DefSeq(g, st, vs, i) == IF i > Len(vs) THEN st ELSE DefSeq(g, DefVal(g, st, vs[i]), vs, i + 1)
+DefDict(g, st, kvs, i) == IF i > Len(kvs) THEN st ELSE DefDict(g, DefVal(g, st, kvs[i][2]), kvs, i + 1)
+DefArgs(g, st, n, args) ==
+  IF args = <<>> THEN st ELSE DefArgs(g, DefVal(g, st, Val(g, n, Head(args).name)), n, Tail(args))
+
+DefNode(g, st, n) ==
+  IF n \in st.seen THEN st
+  ELSE LET s0 == [st EXCEPT !.seen = @ \cup {n}]
+           s1 == DefArgs(g, s0, n, ArgsOf[g[n].cls])
+           s2 == IF g[n].task # "0" THEN DefNode(g, s1, g[n].task) ELSE s1
+           s3 == DefSeq(g, s2, [i \in DOMAIN g[n].pre |-> <<"cfg", g[n].pre[i]>>], 1)
+           s4 == DefSeq(g, s3, [i \in DOMAIN g[n].init |-> <<"cfg", g[n].init[i]>>], 1)
+       IN [s4 EXCEPT !.order = Append(@, n)]
+
+DefsOrder(g, root) == DefNode(g, [seen |-> {}, order |-> <<>>], root).order
+
+(* ------------------------------------------------------------------ *)
+(* Runtime objects (FromPython, recurse_task = False): the nodes        *)
+(* instantiated by root.instance() and the pre-tasks it executes        *)
+(* ------------------------------------------------------------------ *)
+SuccNoTask(g, n) == UNION {CfgsIn(g[n].vals[a]) : a \in DOMAIN g[n].vals} \cup Range(g[n].pre) \cup Range(g[n].init)
+RECURSIVE ReachNT(_, _, _)
+ReachNT(g, frontier, seen) ==
+  IF frontier = {} THEN seen
+  ELSE LET new == (UNION {SuccNoTask(g, n) : n \in frontier}) \ seen IN ReachNT(g, new, seen \cup new)
+InstNodes(g, root) == ReachNT(g, {root}, {root})
+InstPre(g, root) == UNION {Range(g[m].pre) : m \in InstNodes(g, root)}
 =============================================================================
